@@ -56,6 +56,8 @@ def check(repo, col, tier):
     channels_in_view(repo, col, "R-C11-inview")
     synapse_view_local_index(repo, col, "R-C11-inview")
     listed_in_view(repo, col, "R-C11-inview")
+    col.rule("R-C11-refresh", "a view refreshed after an edit of the base keeps its rows, scope and kind", 3)
+    refreshed_view(repo, col, "R-C11-refresh")
     col.rule("R-C11-groups", "groups hold sorted, unique row labels", 2)
     group_normal_form(repo, col)
     col.rule("R-C11-structure", "a view's structure attributes describe its own branches", 2)
@@ -1050,6 +1052,31 @@ def channels_in_view(repo, col, R):
     flt = T.find(r, lambda x: x.op == "comp" and T.find(x, lambda y: y.op == "attr" and y.name == "channels" and y.args[0].op == "param" and y.args[0].name == "pointer") is not None)
     col.check(flt is not None, R, fi, "the view's channels are the pointer's channels that are in view", "[c for c in pointer.channels if ...]",
               f"returns {r.short(100)}", node=fi.node)
+
+
+def refreshed_view(repo, col, R):
+    """Module._update_view re-builds a view after an edit of the base (make_trainable, delete_*, ...) by replacing its __dict__ with
+    that of a fresh View over THE SAME rows.  A fresh View takes its scope from the base and starts with the default `_current_view`,
+    so both -- the state a view carries beyond its rows -- are saved before and restored after; otherwise `view.cell(0)` after
+    `view.make_trainable(...)` counts cells in another scope than before."""
+    fi = repo.method("Module", "_update_view")
+    ex = idx.expander(repo, fi)
+    rep = [s_ for s_ in ex.stores if s_.kind == "attr" and s_.key.name == "__dict__" and _is_self(s_.base)]
+    if not rep:
+        col.unk(R, fi, "_update_view rebuilds the view over the same rows", "the replacement of the view's __dict__ was not found", node=fi.node)
+        return
+    ctor = T.find(rep[0].value, lambda x: x.op == "call" and x.name == "View")
+    args = list(ctor.args) if ctor is not None else []
+    same = len(args) == 3 and args[0].op == "attr" and args[0].name == "base" and \
+        all(a.op == "attr" and a.name == n_ and _is_self(a.args[0]) for a, n_ in zip(args[1:], ("_nodes_in_view", "_edges_in_view")))
+    col.check(same, R, fi, "_update_view rebuilds the view over the same rows of the base", "View(self.base, self._nodes_in_view, self._edges_in_view)",
+              f"rebuilt as {ctor.short(120) if ctor is not None else rep[0].value.short(120)}", node=rep[0].node)
+    for a in ("_scope", "_current_view"):
+        back = [s_ for s_ in ex.stores if s_.kind == "attr" and s_.key.name == a and _is_self(s_.base) and s_.node.lineno > rep[0].node.lineno]
+        ok = any(s_.value.op == "attr" and s_.value.name == a and _is_self(s_.value.args[0]) for s_ in back)
+        col.check(ok, R, fi, f"_update_view keeps the view's `{a}`", "saved before and restored after the rebuild",
+                  f"`{a}` is " + ("set to " + back[0].value.short(60) if back else "not restored") + " after the rebuild: the refreshed view falls back to the base's "
+                  "scope / the default kind, and the next `.cell(i)` / `.comp(i)` on it selects other rows than before the edit", node=(back[0].node if back else rep[0].node))
 
 
 def listed_in_view(repo, col, R):
